@@ -6,7 +6,8 @@ cd /verif
 ids=("$@"); [ ${#ids[@]} -eq 0 ] && ids=($(ls seeded | grep -E '^C[0-9]+-[0-9]+$'))
 [ -z "$(git -C /repo status --porcelain)" ] || { echo "/repo not clean" >&2; exit 2; }
 for id in "${ids[@]}"; do
-  prop=$(python3 -c "import json;print(json.load(open('seeded/$id/meta.json'))['property'])")
+  # the check that is expected to catch it: "check_property" if the meta names one (a change caught by another property's check), else its own
+  prop=$(python3 -c "import json;m=json.load(open('seeded/$id/meta.json'));print(m.get('check_property') or m['property'])")
   git -C /repo apply "/verif/seeded/$id/patch.diff" || { echo "$id: patch does not apply" >&2; continue; }
   out=$(VERIF_EVIDENCE_DIR=/verif/target/seedtest-evidence ./check "$prop" --tier quick 2>&1); rc=$?
   git -C /repo checkout -- . 
